@@ -535,6 +535,52 @@ pub fn directed_inputs(rng: &mut Rng, thorough: bool) -> Vec<(String, Vec<u8>)> 
         d.extend_from_slice(&blk[..second.min(blk.len())]);
         v.push((format!("treeless-after-raw moves={} second={}", m, second), d));
     }
+    // literals-level raw fallback, then the same histogram: a unit of n > 1024 mildly skewed bytes repeated to fill a
+    // block (first period = literals, the rest = matches, so the BLOCK stays compressed while Huffman coding of its
+    // literals loses by the size of the table description and `compress_literals` falls back to raw literals); the
+    // next block permutes the unit.  A table remembered although it was never sent would be reused here.
+    let shapes: &[(usize, u64)] = if thorough { &[(1100, 200), (1200, 300), (1300, 250), (1400, 300), (1500, 350), (2000, 300), (1050, 150), (3000, 400)] } else { &[(1100, 200), (1300, 250), (1500, 350)] };
+    for &(n, hot) in shapes {
+        let unit: Vec<u8> = (0..n).map(|_| if rng.below(1000) < hot { rng.below(16) as u8 } else { rng.next() as u8 }).collect();
+        let mut unit2 = unit.clone();
+        unit2.reverse();
+        unit2.rotate_left(n / 3);
+        let mut d: Vec<u8> = unit.iter().copied().cycle().take(BLOCK).collect();
+        d.extend(unit2.iter().copied().cycle().take(3 * n + 17));
+        v.push((format!("lit-raw-fallback-then-same-histogram n={} hot={}", n, hot), d.clone()));
+        // the same after a block that established a different Huffman table
+        let mut e: Vec<u8> = (0..BLOCK).map(|_| (((rng.next() as u8) as u32 * (rng.next() as u8) as u32) >> 8) as u8).collect();
+        e.extend_from_slice(&d);
+        v.push((format!("huffman-block, lit-raw-fallback-then-same-histogram n={} hot={}", n, hot), e));
+    }
+    // many distinct offset codes with similar frequencies (normalised offset-code counts summing to >= 256: the offset
+    // table then wants an accuracy log above its format maximum of 8 and must be clamped): copies of short chunks at
+    // distances spread over many powers of two, ~30 per code, plus one rare code
+    for &(codes_lo, codes_hi, per) in &[(2u32, 16u32, 31usize), (3, 16, 29), (2, 14, 33), (4, 16, 30)] {
+        let mut d = rng.bytes(66_000);
+        for c in codes_lo..=codes_hi {
+            for k in 0..per {
+                // offset value in [2^c, 2^(c+1)) -> distance = value - 3 (>= 1)
+                let val = (1u64 << c) + rng.below(1u64 << c);
+                let dist = (val.max(4) - 3) as usize;
+                if dist + 8 >= d.len() {
+                    continue;
+                }
+                let start = d.len() - dist;
+                let len = 6 + (k % 3);
+                let chunk: Vec<u8> = d[start..(start + len).min(d.len())].to_vec();
+                d.extend_from_slice(&chunk);
+                // a few fresh literals so that consecutive matches do not merge
+                let n_ = 2 + (k % 2);
+                d.extend(rng.bytes(n_));
+                if d.len() + 64 > BLOCK {
+                    break;
+                }
+            }
+        }
+        d.truncate(BLOCK - 1);
+        v.push((format!("many-offset-codes {}..={} x{}", codes_lo, codes_hi, per), d));
+    }
     v
 }
 
@@ -735,7 +781,19 @@ pub fn run(opts: &Opts) -> Run {
             // histories aimed at leaked state: same data twice (a leaked Huffman table would make the
             // first block of the next frame treeless), Huffman-friendly data, then anything
             let choice = rng.below(4);
-            let data = if k > 0 && choice <= 1 && prev.is_some() {
+            // every fourth history: the previous frame is an EXACT multiple of the block size and leaves a Huffman
+            // table behind (the frame then ends through the empty-trailing-block exit), and the next frame starts with
+            // a block of the same histogram: per-frame cleanup placed on only one of the two loop exits would leak
+            let exact_multiple = h % 4 == 1;
+            let data = if exact_multiple && k == 0 {
+                let alpha = *rng.pick(&[17usize, 60, 200]);
+                let blocks = rng.range(1, 2) as usize;
+                alphabet_data(&mut rng, alpha, blocks * BLOCK, true)
+            } else if exact_multiple && k == 1 && prev.is_some() {
+                let p_ = prev.clone().unwrap();
+                let n_ = rng.range(1500, 6000) as usize;
+                p_[..n_.min(p_.len())].to_vec()
+            } else if k > 0 && choice <= 1 && prev.is_some() {
                 prev.clone().unwrap()
             } else if choice == 2 {
                 let alpha = *rng.pick(&[3usize, 17, 60, 200]);
@@ -746,7 +804,7 @@ pub fn run(opts: &Opts) -> Run {
                 let len = gen::pick_len(&mut rng, if h % 8 == 0 { 270_000 } else { 20_000 });
                 gen::data(&mut rng, kind, len)
             };
-            let lvl = *rng.pick(&[Lvl::F, Lvl::F, Lvl::F, Lvl::U, Lvl::D]);
+            let lvl = if exact_multiple && k <= 1 { Lvl::F } else { *rng.pick(&[Lvl::F, Lvl::F, Lvl::F, Lvl::U, Lvl::D]) };
             if lvl != cur {
                 comp.set_compression_level(lvl.real());
                 cur = lvl;
